@@ -31,6 +31,9 @@ def scenarios(ctx: Ctx, res: Result):
     for sc in gc.instant_completion_family():
         res.count('instant_completion_family')
         yield sc
+    for sc in gc.racing_engine_family():
+        res.count('racing_engine_family')
+        yield sc
     for sc in gc.remote_then_local_family():
         res.count('remote_then_local_family')
         yield sc
